@@ -143,9 +143,60 @@ theorem json_record_iff_fits (schema : Fields) (ks : List Name) (vs : List J) :
   simp only [List.all_map, Function.comp_def, getValue_ok_iff_fits]
   split <;> simp_all
 
+/-- **JSON, whole file.**  A successful run returns exactly one record per line, the `i`-th record being the
+    conversion of the `i`-th line (whatever the schedule of the parser workers: `reorder_correct` applied to these
+    records), and that record carries the line's values. -/
+theorem json_run_rows (rows : List J) (schema : Fields) (recs : List (List Value)) (h : jsonRun rows = .ok schema recs) :
+    recs.length = rows.length ∧
+    (∀ (i : Nat) (rec : List Value), recs[i]? = some rec → ∃ row, rows[i]? = some row ∧ rowValues schema row = some rec ∧
+      zipAll (fun (f : Name × Ty) v => represents f.2 v (row.get f.1)) schema rec = true) ∧
+    (∀ (b : Nat), 0 < b → ∀ bs : List (List (Nat × Option (List Value))), bs.Perm (parsedBatches b recs) → ∀ pos,
+      consume recs.length QState.init false (schedule bs pos) = .stopped recs []) := by
+  unfold jsonRun at h
+  split at h
+  · cases h
+  · cases h
+  · next schema' hc =>
+    split at h
+    · next recs' hr =>
+      cases h
+      obtain ⟨hl, hi⟩ := allSome_spec _ _ hr
+      refine ⟨by simpa using hl, ?_, fun b hb bs hp pos => reorder_correct recs b hb bs hp pos⟩
+      intro i rec hrec
+      have := hi i rec hrec
+      rw [List.getElem?_map] at this
+      cases hrow : rows[i]? with
+      | none => simp [hrow] at this
+      | some row =>
+        simp only [hrow, Option.map_some, Option.some.injEq] at this
+        exact ⟨row, rfl, this, json_record_faithful schema row rec this⟩
+    · cases h
+
 /-- **CSV.**  The value produced for a cell is what the cell's text denotes (NULL exactly for the empty cell). -/
 theorem csv_cell_faithful (t : Ty) (c : Cell) (v : Value) (h : cellExec t c = some v) : cellRepresents v c = true :=
   cellExec_represents t c v h
+
+/-- **CSV, whole file.**  A successful run returns exactly one record per row of the file, in file order, the
+    `i`-th record holding, cell by cell, what the `i`-th row's texts denote. -/
+theorem csv_run_rows (f : CsvFile) (names : List Name) (tys : List Ty) (recs : List (List Value))
+    (h : csvRun f = .ok names tys recs) :
+    recs.length = f.rows.length ∧
+    ∀ (i : Nat) (rec : List Value), recs[i]? = some rec → ∃ row, f.rows[i]? = some row ∧
+      ∀ (k : Nat) (v : Value) (c : Cell), rec[k]? = some v → row[k]? = some c → cellRepresents v c = true := by
+  unfold csvRun at h
+  split at h
+  · cases h
+  · cases h
+  · split at h
+    · cases h
+    · split at h
+      · next recs' hr =>
+        cases h
+        obtain ⟨hl, hi⟩ := rowsExec_spec _ _ _ hr
+        refine ⟨hl, fun i rec hrec => ?_⟩
+        obtain ⟨row, hrow, hex⟩ := hi i rec hrec
+        exact ⟨row, hrow, (rowExec_spec _ _ _ hex).2⟩
+      · cases h
 
 /-- the code before the repair: a struct with an explicit null inside a union column became NULL as a whole -/
 def rawSchema : Fields := [([99], .union [.str, .struct [[97], [98]] [.null, .float]])]
